@@ -1,7 +1,7 @@
 (* C15 -- the visited bookkeeping of SetSortIndices / SortCollision / PrettySortBlocks over ARBITRARY
-   graphs and scripts: never a Fault; total with an explicit fuel when the "before-parent" calls of
-   SortCollision admit a rank (no cycle among them); never completes when they contain a cycle that
-   is unvisited at the call. *)
+   graphs and scripts: never a Fault, and total with the explicit fuel numBlocks + 2 (SortCollision
+   inserts its parent into visitedIndices on entry since the repair of C15-sortcollision-cycle, so
+   every recursive call consumes an unvisited block). *)
 From NiflyVerif Require Import Res GraphModel GraphInv GraphDelete GraphOrder RobustModel RobustBasics.
 From Coq Require Import ZifyBool ZifyNat ZifyN.
 Local Open Scope N_scope.
@@ -120,6 +120,32 @@ Section SorterProofs.
     - intros j Hj. rewrite Hget. destruct (N.eqb_spec j i); [contradiction|reflexivity].
   Qed.
 
+  Lemma mark_ok i st : wf st -> i < n ->
+    exists st', rb_mark i st = Ok st' /\ wf st' /\ mono st st' /\ rb_is_visited st' i = true.
+  Proof.
+    intros [Hv Hn] Hi. unfold rb_mark.
+    destruct (vset_ok (rb_visited st) i true) as (vi & Evi); [unfold vlen; lia|].
+    rewrite Evi. eexists. split; [reflexivity|].
+    assert (Hget : forall j, rb_is_visited (mkRbSt vi (rb_new_indices st) (rb_new_index st)) j
+                             = if j =? i then true else rb_is_visited st j).
+    { intros j. unfold rb_is_visited. cbn [rb_visited]. rewrite (vget_vset _ _ _ _ j Evi).
+      destruct (j =? i); reflexivity. }
+    split; [|split].
+    - split; cbn [rb_visited rb_new_indices]; [rewrite (vset_len _ _ _ _ Evi); exact Hv|exact Hn].
+    - intros j Hj. rewrite Hget. destruct (j =? i); auto.
+    - rewrite Hget, N.eqb_refl. reflexivity.
+  Qed.
+
+  Lemma set_index_ok i st : wf st -> i < n ->
+    exists st', rb_set_index i st = Ok st' /\ wf st' /\ mono st st'.
+  Proof.
+    intros [Hv Hn] Hi. unfold rb_set_index.
+    destruct (vset_ok (rb_new_indices st) i (rb_new_index st)) as (ni & Eni); [unfold vlen; lia|].
+    rewrite Eni. eexists. split; [reflexivity|]. split.
+    - split; cbn [rb_visited rb_new_indices]; [exact Hv|rewrite (vset_len _ _ _ _ Eni); exact Hn].
+    - intros j Hj. exact Hj.
+  Qed.
+
   (* ------------------------------------------------------------------------------------------ *)
   (* never a Fault: every index used on newIndices / visitedIndices passed the GetBlock guard *)
   Lemma safe_call f cond c st :
@@ -132,11 +158,18 @@ Section SorterProofs.
     apply IH; auto.
   Qed.
 
-  Lemma safe_mark p st : wf st -> rb_valid n p = true ->
-    rb_safe wf (if rb_is_visited st p then Ok st else rb_assign p st).
+  Lemma safe_mark (b : bool) p st : wf st -> rb_valid n p = true ->
+    rb_safe wf (if b then rb_mark p st else Ok st).
   Proof.
-    intros W V. destruct (rb_is_visited st p); [exact W|].
-    destruct (assign_ok p st W (valid_lt p V)) as (st' & -> & W' & _). exact W'.
+    intros W V. destruct b; [|exact W].
+    destruct (mark_ok p st W (valid_lt p V)) as (st' & -> & W' & _). exact W'.
+  Qed.
+
+  Lemma safe_set_index (b : bool) p st : wf st -> rb_valid n p = true ->
+    rb_safe wf (if b then rb_set_index p st else Ok st).
+  Proof.
+    intros W V. destruct b; [|exact W].
+    destruct (set_index_ok p st W (valid_lt p V)) as (st' & -> & W' & _). exact W'.
   Qed.
 
   Lemma safe_bind {S} (Inv : S -> Prop) (r : res S) (k : S -> res S) :
@@ -147,9 +180,10 @@ Section SorterProofs.
   Proof.
     induction fuel as [|f IH]; intros p st W V; [exact I|].
     cbn [rb_sort_collision].
-    apply safe_bind; [apply rb_iter_safe; [exact W|intros; apply safe_call; auto]|].
+    apply safe_bind; [apply safe_mark; auto|].
+    intros st0 W0. apply safe_bind; [apply rb_iter_safe; [exact W0|intros; apply safe_call; auto]|].
     intros st1 W1. apply safe_bind; [apply rb_iter_safe; [exact W1|intros; apply safe_call; auto]|].
-    intros st2 W2. apply safe_bind; [apply safe_mark; auto|].
+    intros st2 W2. apply safe_bind; [apply safe_set_index; auto|].
     intros st3 W3. apply rb_iter_safe; [exact W3|intros; apply safe_call; auto].
   Qed.
 
@@ -184,217 +218,116 @@ Section SorterProofs.
   Qed.
 
   (* ------------------------------------------------------------------------------------------ *)
-  (* totality when the before-parent calls admit a rank *)
-  Section Ranked.
-    Variable rank : N -> nat.
-    Variable R : nat.
-    Hypothesis Hrank : forall p c, rb_valid n p = true ->
-      In c (rb_pre_targets n children entities before p) -> (rank c < rank p)%nat.
-    Hypothesis HR : forall p, (rank p <= R)%nat.
+  (* totality for EVERY graph and every script: each recursive call marks a so far unvisited block
+     before it recurses, so the nesting depth is bounded by the number of unvisited blocks *)
+  Definition need (st : rb_sstate) (p : N) : nat :=
+    (unv st + (if rb_is_visited st p then 1 else 0))%nat.
 
-    Definition need (st : rb_sstate) (p : N) : nat :=
-      (unv st * (R + 1) + (if rb_is_visited st p then R + 1 else rank p))%nat.
+  Definition post (st : rb_sstate) (r : res rb_sstate) : Prop :=
+    exists st', r = Ok st' /\ wf st' /\ mono st st'.
 
-    Definition post (st : rb_sstate) (r : res rb_sstate) : Prop :=
-      exists st', r = Ok st' /\ wf st' /\ mono st st'.
+  Lemma total_call f cond c s :
+    (forall p st, wf st -> rb_valid n p = true -> (need st p < f)%nat -> post st (sc f p st)) ->
+    wf s -> (unv s < f)%nat -> post s (rb_call n (sc f) cond c s).
+  Proof.
+    intros IH W Hb. unfold rb_call.
+    destruct (rb_valid n c) eqn:V; cbn [andb]; [|exists s; auto using mono_refl].
+    destruct (rb_is_visited s c) eqn:Vis; cbn [negb andb]; [exists s; auto using mono_refl|].
+    destruct (cond c) eqn:C; [|exists s; auto using mono_refl].
+    apply IH; auto. unfold need. rewrite Vis. lia.
+  Qed.
 
-    Lemma in_pre_entities p c : rb_valid n c = true -> In c (entities p) ->
-      In c (rb_pre_targets n children entities before p).
-    Proof.
-      intros V H. unfold rb_pre_targets. apply in_or_app. left. apply filter_In. auto.
-    Qed.
-    Lemma in_pre_children p c : rb_valid n c = true -> before c = true -> In c (children p) ->
-      In c (rb_pre_targets n children entities before p).
-    Proof.
-      intros V B H. unfold rb_pre_targets. apply in_or_app. right. apply filter_In.
-      split; [exact H|]. rewrite V, B. reflexivity.
-    Qed.
+  Lemma total_loop f cond l st0 :
+    (forall p st, wf st -> rb_valid n p = true -> (need st p < f)%nat -> post st (sc f p st)) ->
+    wf st0 -> (unv st0 < f)%nat -> post st0 (rb_iter (rb_call n (sc f) cond) l st0).
+  Proof.
+    intros IH W0 Hb.
+    destruct (rb_iter_inv (fun s => wf s /\ mono st0 s) (rb_call n (sc f) cond) l st0)
+      as (st1 & E1 & W1 & M1); [split; auto using mono_refl| |exists st1; auto].
+    intros c s _ [Ws Hm].
+    pose proof (mono_unv st0 s W0 Ws Hm) as Hu.
+    destruct (total_call f cond c s IH Ws ltac:(lia)) as (s' & E & Ws' & Hm').
+    exists s'. split; [exact E|]. split; [exact Ws'|]. eapply mono_trans; eauto.
+  Qed.
 
-    (* one guarded call, given a bound on what it needs *)
-    Lemma total_call f cond c s :
-      (forall p st, wf st -> rb_valid n p = true -> (need st p < f)%nat -> post st (sc f p st)) ->
-      wf s ->
-      (rb_valid n c = true -> rb_is_visited s c = false -> cond c = true -> (need s c < f)%nat) ->
-      post s (rb_call n (sc f) cond c s).
-    Proof.
-      intros IH W Hb. unfold rb_call.
-      destruct (rb_valid n c) eqn:V; cbn [andb]; [|exists s; auto using mono_refl].
-      destruct (rb_is_visited s c) eqn:Vis; cbn [negb andb]; [exists s; auto using mono_refl|].
-      destruct (cond c) eqn:C; [|exists s; auto using mono_refl].
-      apply IH; auto.
-    Qed.
+  Lemma total_both : forall fuel,
+    (forall p st, wf st -> rb_valid n p = true -> (need st p < fuel)%nat -> post st (sc fuel p st)) /\
+    (forall i st, wf st -> (unv st + 1 < fuel)%nat -> post st (ssi fuel i st)).
+  Proof.
+    induction fuel as [|f [IHsc IHssi]]; [split; intros; lia|].
+    assert (Hsc : forall p st, wf st -> rb_valid n p = true -> (need st p < S f)%nat -> post st (sc (S f) p st)).
+    { intros p st W V Hneed. cbn [rb_sort_collision].
+      (* the insertion on entry *)
+      assert (H0 : exists st0, (if negb (rb_is_visited st p) then rb_mark p st else Ok st) = Ok st0 /\
+                               wf st0 /\ mono st st0 /\ (unv st0 < f)%nat).
+      { unfold need in Hneed. destruct (rb_is_visited st p) eqn:Vp; cbn [negb].
+        - exists st. split; [reflexivity|]. split; [exact W|]. split; [apply mono_refl|lia].
+        - destruct (mark_ok p st W (valid_lt p V)) as (st0 & E0 & W0 & M0 & V0).
+          exists st0. split; [exact E0|]. split; [exact W0|]. split; [exact M0|].
+          pose proof (mono_unv_strict st st0 p W W0 M0 (valid_lt p V) Vp V0). lia. }
+      destruct H0 as (st0 & -> & W0 & M0 & Hb0). cbn [bind].
+      destruct (total_loop f (fun _ => true) (entities p) st0 IHsc W0 Hb0) as (st1 & -> & W1 & M1). cbn [bind].
+      pose proof (mono_unv st0 st1 W0 W1 M1) as Hu1.
+      destruct (total_loop f before (children p) st1 IHsc W1 ltac:(lia)) as (st2 & -> & W2 & M2). cbn [bind].
+      pose proof (mono_unv st1 st2 W1 W2 M2) as Hu2.
+      assert (H3 : exists st3, (if negb (rb_is_visited st p) then rb_set_index p st2 else Ok st2) = Ok st3 /\
+                               wf st3 /\ mono st2 st3).
+      { destruct (negb (rb_is_visited st p)); [|exists st2; auto using mono_refl].
+        destruct (set_index_ok p st2 W2 (valid_lt p V)) as (st3 & E3 & W3 & M3). eauto. }
+      destruct H3 as (st3 & -> & W3 & M3). cbn [bind].
+      pose proof (mono_unv st2 st3 W2 W3 M3) as Hu3.
+      destruct (total_loop f (fun c => negb (before c)) (children p) st3 IHsc W3 ltac:(lia)) as (st4 & -> & W4 & M4).
+      exists st4. split; [reflexivity|]. split; [exact W4|].
+      eapply mono_trans; [exact M0|]. eapply mono_trans; [exact M1|]. eapply mono_trans; [exact M2|].
+      eapply mono_trans; eauto. }
+    split; [exact Hsc|].
+    intros i st W Hf. cbn [rb_set_sort_indices].
+    destruct (rb_valid n i) eqn:V; cbn [negb]; [|exists st; auto using mono_refl].
+    destruct (rb_is_visited st i) eqn:Vis; [exists st; auto using mono_refl|].
+    destruct (is_coll i).
+    { apply IHsc; auto. unfold need. rewrite Vis. lia. }
+    destruct (assign_ok i st W (valid_lt i V)) as (st1 & -> & W1 & M1 & V1 & _). cbn [bind].
+    assert (Hu1 : (unv st1 < unv st)%nat) by (apply mono_unv_strict with (p := i); auto using valid_lt).
+    destruct (rb_iter_inv (fun s => wf s /\ mono st1 s)
+                (rb_run_action n is_coll (ssi f) (sc f)) (script i) st1) as (st2 & E2 & W2 & M2);
+      [split; auto using mono_refl| |].
+    { intros a s _ [Ws Hm].
+      pose proof (mono_unv st1 s W1 Ws Hm) as Hu.
+      destruct a as [c|c]; cbn [rb_run_action].
+      - destruct (IHssi c s Ws) as (s' & E & Ws' & Hm'); [lia|].
+        exists s'. split; [exact E|]. split; [exact Ws'|]. eapply mono_trans; eauto.
+      - destruct (rb_valid n c) eqn:Vc; cbn [andb]; [|exists s; auto].
+        destruct (is_coll c); [|exists s; auto].
+        destruct (IHsc c s Ws Vc) as (s' & E & Ws' & Hm').
+        + unfold need. destruct (rb_is_visited s c); lia.
+        + exists s'. split; [exact E|]. split; [exact Ws'|]. eapply mono_trans; eauto. }
+    exists st2. split; [exact E2|]. split; [exact W2|]. eapply mono_trans; eauto.
+  Qed.
 
-    Lemma total_both : forall fuel,
-      (forall p st, wf st -> rb_valid n p = true -> (need st p < fuel)%nat -> post st (sc fuel p st)) /\
-      (forall i st, wf st -> ((unv st + 1) * (R + 1) < fuel)%nat -> post st (ssi fuel i st)).
-    Proof.
-      induction fuel as [|f [IHsc IHssi]]; [split; intros; lia|].
-      assert (Hsc : forall p st, wf st -> rb_valid n p = true -> (need st p < S f)%nat -> post st (sc (S f) p st)).
-      { intros p st W V Hneed. cbn [rb_sort_collision].
-        (* arithmetic: what a pre-call on an unvisited c with a smaller rank needs *)
-        assert (Hpre : forall s c, wf s -> mono st s -> rb_valid n c = true -> rb_is_visited s c = false ->
-                                   (rank c < rank p)%nat -> (need s c < f)%nat).
-        { intros s c Ws Hm Vc Visc Hr. unfold need in *. rewrite Visc.
-          pose proof (mono_unv st s W Ws Hm) as Hu.
-          pose proof (Nat.mul_le_mono_r _ _ (R + 1) Hu) as Hmul.
-          pose proof (HR c). pose proof (HR p).
-          destruct (rb_is_visited st p); lia. }
-        (* loop 1: entities *)
-        destruct (rb_iter_inv (fun s => wf s /\ mono st s) (rb_call n (sc f) (fun _ => true)) (entities p) st)
-          as (st1 & E1 & W1 & M1); [split; auto using mono_refl| |].
-        { intros c s Hin [Ws Hm].
-          destruct (total_call f (fun _ => true) c s IHsc Ws) as (s' & E & Ws' & Hm').
-          - intros Vc Visc _. apply Hpre; auto. apply Hrank; auto. apply in_pre_entities; auto.
-          - exists s'. split; [exact E|]. split; [exact Ws'|]. eapply mono_trans; eauto. }
-        rewrite E1. cbn [bind].
-        (* loop 2: before-parent children *)
-        destruct (rb_iter_inv (fun s => wf s /\ mono st s) (rb_call n (sc f) before) (children p) st1)
-          as (st2 & E2 & W2 & M2); [split; auto| |].
-        { intros c s Hin [Ws Hm].
-          destruct (total_call f before c s IHsc Ws) as (s' & E & Ws' & Hm').
-          - intros Vc Visc Bc. apply Hpre; auto. apply Hrank; auto. apply in_pre_children; auto.
-          - exists s'. split; [exact E|]. split; [exact Ws'|]. eapply mono_trans; eauto. }
-        rewrite E2. cbn [bind].
-        (* the mark *)
-        assert (Hmark : exists st3, (if rb_is_visited st2 p then Ok st2 else rb_assign p st2) = Ok st3 /\
-                                    wf st3 /\ mono st st3 /\ rb_is_visited st3 p = true).
-        { destruct (rb_is_visited st2 p) eqn:V2; [exists st2; auto|].
-          destruct (assign_ok p st2 W2 (valid_lt p V)) as (st3 & E3 & W3 & M3 & V3 & _).
-          exists st3. split; [exact E3|]. split; [exact W3|]. split; [eapply mono_trans; eauto|exact V3]. }
-        destruct Hmark as (st3 & E3 & W3 & M3 & V3). rewrite E3. cbn [bind].
-        (* loop 3: the other children, the parent is visited now *)
-        destruct (rb_iter_inv (fun s => wf s /\ mono st s /\ rb_is_visited s p = true)
-                    (rb_call n (sc f) (fun c => negb (before c))) (children p) st3)
-          as (st4 & E4 & W4 & M4 & _); [auto| |].
-        { intros c s Hin (Ws & Hm & Vsp).
-          destruct (total_call f (fun c => negb (before c)) c s IHsc Ws) as (s' & E & Ws' & Hm').
-          - intros Vc Visc _. unfold need in *. rewrite Visc.
-            pose proof (HR c). pose proof (HR p).
-            destruct (rb_is_visited st p) eqn:Vp.
-            + pose proof (mono_unv st s W Ws Hm) as Hu.
-              pose proof (Nat.mul_le_mono_r _ _ (R + 1) Hu). lia.
-            + assert (Hs : (unv s < unv st)%nat)
-                by (apply mono_unv_strict with (p := p); auto using valid_lt).
-              assert (Hmul : ((unv s + 1) * (R + 1) <= unv st * (R + 1))%nat) by (apply Nat.mul_le_mono_r; lia).
-              lia.
-          - exists s'. split; [exact E|]. split; [exact Ws'|]. split; [eapply mono_trans; eauto|]. apply Hm'. exact Vsp. }
-        exists st4. rewrite E4. auto. }
-      split; [exact Hsc|].
-      intros i st W Hf. cbn [rb_set_sort_indices].
-      destruct (rb_valid n i) eqn:V; cbn [negb]; [|exists st; auto using mono_refl].
-      destruct (rb_is_visited st i) eqn:Vis; [exists st; auto using mono_refl|].
-      destruct (is_coll i).
-      { apply IHsc; auto. unfold need. rewrite Vis. pose proof (HR i). lia. }
-      destruct (assign_ok i st W (valid_lt i V)) as (st1 & -> & W1 & M1 & V1 & _). cbn [bind].
-      assert (Hu1 : (unv st1 < unv st)%nat) by (apply mono_unv_strict with (p := i); auto using valid_lt).
-      destruct (rb_iter_inv (fun s => wf s /\ mono st1 s)
-                  (rb_run_action n is_coll (ssi f) (sc f)) (script i) st1) as (st2 & E2 & W2 & M2);
-        [split; auto using mono_refl| |].
-      { intros a s _ [Ws Hm].
-        pose proof (mono_unv st1 s W1 Ws Hm) as Hu.
-        assert (Hmul : ((unv s + 1) * (R + 1) <= unv st * (R + 1))%nat) by (apply Nat.mul_le_mono_r; lia).
-        destruct a as [c|c]; cbn [rb_run_action].
-        - destruct (IHssi c s Ws) as (s' & E & Ws' & Hm'); [lia|].
-          exists s'. split; [exact E|]. split; [exact Ws'|]. eapply mono_trans; eauto.
-        - destruct (rb_valid n c) eqn:Vc; cbn [andb]; [|exists s; auto].
-          destruct (is_coll c); [|exists s; auto].
-          destruct (IHsc c s Ws Vc) as (s' & E & Ws' & Hm').
-          + unfold need. pose proof (HR c). destruct (rb_is_visited s c); lia.
-          + exists s'. split; [exact E|]. split; [exact Ws'|]. eapply mono_trans; eauto. }
-      exists st2. split; [exact E2|]. split; [exact W2|]. eapply mono_trans; eauto.
-    Qed.
+  (* PrettySortBlocks terminates within fuel numBlocks + 2, for every graph *)
+  Theorem pretty_sort_total roots :
+    exists st, rb_pretty_sort n children entities before is_coll script (S (S (N.to_nat n))) roots = Ok st /\ wf st.
+  Proof.
+    unfold rb_pretty_sort.
+    destruct (rb_iter_inv wf (ssi (S (S (N.to_nat n)))) roots (rb_st0 n)) as (st1 & E1 & W1);
+      [apply wf_st0| |].
+    { intros i s _ Ws.
+      destruct (proj2 (total_both (S (S (N.to_nat n)))) i s Ws) as (s' & E & Ws' & _).
+      - pose proof (unv_le_n s Ws). lia.
+      - eauto. }
+    rewrite E1. cbn [bind].
+    apply rb_iter_inv; [exact W1|].
+    intros i s Hi Ws. apply rb_in_all_ids in Hi.
+    destruct (rb_is_visited s i); [eauto|].
+    destruct (assign_ok i s Ws Hi) as (s' & E & W' & _). eauto.
+  Qed.
 
-    (* PrettySortBlocks terminates within fuel (n+1)(R+1)+1 *)
-    Theorem pretty_sort_total roots :
-      exists st, rb_pretty_sort n children entities before is_coll script
-                   (S ((N.to_nat n + 1) * (R + 1))) roots = Ok st /\ wf st.
-    Proof.
-      unfold rb_pretty_sort.
-      destruct (rb_iter_inv wf (ssi (S ((N.to_nat n + 1) * (R + 1)))) roots (rb_st0 n)) as (st1 & E1 & W1);
-        [apply wf_st0| |].
-      { intros i s _ Ws.
-        destruct (proj2 (total_both (S ((N.to_nat n + 1) * (R + 1)))) i s Ws) as (s' & E & Ws' & _).
-        - pose proof (unv_le_n s Ws) as Hu.
-          assert (((unv s + 1) * (R + 1) <= (N.to_nat n + 1) * (R + 1))%nat) by (apply Nat.mul_le_mono_r; lia).
-          lia.
-        - eauto. }
-      rewrite E1. cbn [bind].
-      apply rb_iter_inv; [exact W1|].
-      intros i s Hi Ws. apply rb_in_all_ids in Hi.
-      destruct (rb_is_visited s i); [eauto|].
-      destruct (assign_ok i s Ws Hi) as (s' & E & W' & _). eauto.
-    Qed.
-  End Ranked.
-
-  (* ------------------------------------------------------------------------------------------ *)
-  (* divergence: a set C of existing blocks, each of which makes a before-parent call into C *)
-  Section Cyclic.
-    Variable C : list N.
-    Hypothesis Hclosed : forall p, In p C ->
-      rb_valid n p = true /\ exists c, In c C /\ In c (rb_pre_targets n children entities before p).
-
-    Definition unvC (st : rb_sstate) : Prop := forall x, In x C -> rb_is_visited st x = false.
-
-    Lemma diverges_gen : forall fuel c st st',
-      unvC st -> sc fuel c st = Ok st' -> ~ In c C /\ unvC st'.
-    Proof.
-      induction fuel as [|f IH]; intros p st st' U E; [discriminate|].
-      cbn [rb_sort_collision] in E.
-      (* a guarded call preserves "C unvisited" when it completes *)
-      assert (Hpres : forall cond c s s', unvC s -> rb_call n (sc f) cond c s = Ok s' -> unvC s').
-      { intros cond c s s' Us Ec. unfold rb_call in Ec.
-        destruct (rb_valid n c && negb (rb_is_visited s c) && cond c)%bool.
-        - eapply IH; eauto.
-        - inversion Ec; subst. exact Us. }
-      (* a guarded call on a member of C that passes its condition never completes *)
-      assert (Hblock : forall (cond : N -> bool) c s s', In c C -> cond c = true -> unvC s ->
-                         rb_call n (sc f) cond c s = Ok s' -> False).
-      { intros cond c s s' Hc Hcond Us Ec. unfold rb_call in Ec.
-        destruct (Hclosed c Hc) as [Vc _]. rewrite Vc, (Us c Hc), Hcond in Ec. cbn in Ec.
-        destruct (IH c s s' Us Ec) as [Hn _]. contradiction. }
-      destruct (rb_iter (rb_call n (sc f) (fun _ => true)) (entities p) st) as [st1| |] eqn:E1; cbn [bind] in E; try discriminate.
-      destruct (rb_iter (rb_call n (sc f) before) (children p) st1) as [st2| |] eqn:E2; cbn [bind] in E; try discriminate.
-      assert (U1 : unvC st1).
-      { eapply (rb_iter_preserve unvC); [|exact U|exact E1]. intros a s s' _. apply Hpres. }
-      assert (U2 : unvC st2).
-      { eapply (rb_iter_preserve unvC); [|exact U1|exact E2]. intros a s s' _. apply Hpres. }
-      assert (Hnot : ~ In p C).
-      { intros Hp. destruct (Hclosed p Hp) as [_ (c & Hc & Hin)].
-        unfold rb_pre_targets in Hin. apply in_app_or in Hin. destruct Hin as [Hin|Hin].
-        - apply filter_In in Hin. destruct Hin as [Hin _].
-          eapply (rb_iter_blocked unvC (rb_call n (sc f) (fun _ => true)) c); [| |exact Hin|exact U|exact E1].
-          + intros a s s' _. apply Hpres.
-          + intros s s' Us. apply (Hblock (fun _ => true)); auto.
-        - apply filter_In in Hin. destruct Hin as [Hin Hb]. apply andb_prop in Hb. destruct Hb as [_ Hb].
-          eapply (rb_iter_blocked unvC (rb_call n (sc f) before) c); [| |exact Hin|exact U1|exact E2].
-          + intros a s s' _. apply Hpres.
-          + intros s s' Us. apply (Hblock before); auto. }
-      split; [exact Hnot|].
-      destruct (if rb_is_visited st2 p then Ok st2 else rb_assign p st2) as [st3| |] eqn:E3; cbn [bind] in E; try discriminate.
-      assert (U3 : unvC st3).
-      { destruct (rb_is_visited st2 p); [inversion E3; subst; exact U2|].
-        unfold rb_assign in E3.
-        destruct (vset (rb_new_indices st2) p (rb_new_index st2)) as [ni|]; [|discriminate].
-        destruct (vset (rb_visited st2) p true) as [vi|] eqn:Evi; [|discriminate].
-        inversion E3; subst. intros x Hx. unfold rb_is_visited. cbn [rb_visited].
-        rewrite (vget_vset _ _ _ _ x Evi).
-        destruct (N.eqb_spec x p) as [->|_]; [contradiction|]. apply (U2 x Hx). }
-      eapply (rb_iter_preserve unvC); [|exact U3|exact E]. intros a s s' _. apply Hpres.
-    Qed.
-
-    Theorem sort_collision_diverges fuel p st :
-      In p C -> unvC st -> forall st', sc fuel p st <> Ok st'.
-    Proof.
-      intros Hp U st' E. destruct (diverges_gen fuel p st st' U E) as [Hn _]. contradiction.
-    Qed.
-
-    Theorem sort_collision_out_of_fuel fuel p st :
-      In p C -> unvC st -> wf st -> sc fuel p st = OutOfFuel.
-    Proof.
-      intros Hp U W. destruct (Hclosed p Hp) as [V _].
-      pose proof (safe_sc fuel p st W V) as Hs.
-      destruct (sc fuel p st) as [st'| |] eqn:E; [|contradiction|reflexivity].
-      exfalso. eapply sort_collision_diverges; eauto.
-    Qed.
-  End Cyclic.
+  (* SortCollision alone: any entry point, fuel = unvisited blocks + 2 *)
+  Theorem sort_collision_total p st : wf st -> rb_valid n p = true ->
+    exists st', sc (S (S (unv st))) p st = Ok st' /\ wf st'.
+  Proof.
+    intros W V. destruct (proj1 (total_both (S (S (unv st)))) p st W V) as (st' & E & W' & _).
+    - unfold need. destruct (rb_is_visited st p); lia.
+    - eauto.
+  Qed.
 End SorterProofs.
